@@ -2731,11 +2731,19 @@ fn format_slice(
 {
 	if let Some(ValueType::Char8) = argument.value_type().get_element_type()
 	{
-		let slice = Expression::Autocoerce {
-			expression: Box::new(argument.clone()),
-			coerced_type: ValueType::for_string_slice(),
+		let slice = match argument.value_type()
+		{
+			// An array view is used as is, only arrays need to be coerced.
+			ValueType::Slice { .. } => argument.generate(llvm)?,
+			_ =>
+			{
+				let slice = Expression::Autocoerce {
+					expression: Box::new(argument.clone()),
+					coerced_type: ValueType::for_string_slice(),
+				};
+				slice.generate(llvm)?
+			}
 		};
-		let slice = slice.generate(llvm)?;
 		let (slice_ptr, slice_len) =
 			generate_ptr_and_len_from_slice(slice, llvm)?;
 		// Reserve exactly as many bytes as the string has (%.*s stops at
